@@ -107,7 +107,7 @@ func subtractScalars(context Context, target *CandidateNode, lhs *CandidateNode,
 		}
 		result := lhsNum - rhsNum
 		target.Tag = lhs.Tag
-		target.Value = fmt.Sprintf(format, result)
+		target.Value = formatInt64(format, result)
 	} else if (lhsTag == "!!int" || lhsTag == "!!float") && (rhsTag == "!!int" || rhsTag == "!!float") {
 		lhsNum, err := strconv.ParseFloat(lhs.Value, 64)
 		if err != nil {
